@@ -76,6 +76,7 @@ func driverHist(c *Ctx) {
 		g := c.gen(i)
 		g.MaxKids, g.MaxVals = 3, 3
 		var objs []hobj
+		var script []func() ([]interface{}, []interface{})
 		c.emit(i, J{"ev": "reset"})
 		items := func() []int {
 			var r []int
@@ -168,6 +169,40 @@ func driverHist(c *Ctx) {
 				t := g.tree(g.pick(2), g.pick(2) == 0)
 				op = J{"k": "newitem"}
 				addItem(func() ast.ItemNode { return t.Build() })
+			case len(script) > 0:
+				// the next step of a scripted sharing pattern (see below)
+				args, desc := script[0]()
+				script = script[1:]
+				op = J{"k": "newlist", "args": desc}
+				addItem(func() ast.ItemNode { return ast.NewListNode(args...) })
+			case kind == 1 && g.pick(3) == 0:
+				// one list of k fresh variables that becomes the first element of two further lists, each with
+				// variables of its own behind it: what the second list is built from must not show in the first
+				k := []int{1, 2, 3, 3, 5, 6, 7}[g.pick(7)]
+				args := make([]interface{}, 0, k)
+				desc := []interface{}{}
+				for j := 0; j < k; j++ {
+					name := g.newVar()
+					args = append(args, name)
+					desc = append(desc, J{"var": chars(name)})
+				}
+				op = J{"k": "newlist", "args": desc}
+				addItem(func() ast.ItemNode { return ast.NewListNode(args...) })
+				if res["outcome"] == "new" {
+					common := len(objs) - 1
+					for j := 0; j < 2; j++ {
+						script = append(script, func() ([]interface{}, []interface{}) {
+							a := []interface{}{objs[common].item}
+							d := []interface{}{J{"id": common + 1}}
+							for n := 1 + g.pick(2); n > 0; n-- {
+								name := g.newVar()
+								a = append(a, name)
+								d = append(d, J{"var": chars(name)})
+							}
+							return a, d
+						})
+					}
+				}
 			case kind == 1:
 				// a list sharing existing items (possibly the same one twice) and fresh variables
 				n := g.pick(4)
